@@ -1,7 +1,6 @@
 package props
 
 import (
-	"encoding/json"
 	"flag"
 	"os"
 	"testing"
@@ -20,35 +19,7 @@ func TestMain(m *testing.M) {
 }
 
 // TestReplay re-runs the oracle of a saved failing case without rapid.
-// Exit status: test fails iff the case still violates the property.
-func TestReplay(t *testing.T) {
-	if *replayFile == "" {
-		t.Skip("no -replayfile")
-	}
-	data, err := os.ReadFile(*replayFile)
-	if err != nil {
-		t.Fatalf("INCONCLUSIVE cannot read %s: %v", *replayFile, err)
-	}
-	var c Case
-	if err := json.Unmarshal(data, &c); err != nil {
-		t.Fatalf("INCONCLUSIVE cannot parse %s: %v", *replayFile, err)
-	}
-	o := oracles[c.Property+"/"+c.Family]
-	if o == nil {
-		t.Fatalf("INCONCLUSIVE no oracle for %s/%s", c.Property, c.Family)
-	}
-	v := o(&c)
-	switch v.Status {
-	case Fail:
-		t.Fatalf("REPLAY-FAIL property=%s sig=%s\n%s", c.Property, v.Sig, v.Msg)
-	case Pass:
-		t.Logf("REPLAY-PASS")
-	default:
-		t.Logf("REPLAY-NA %s", v.Reason)
-	}
-}
+func TestReplay(t *testing.T) { ReplayMain(t, *replayFile) }
 
 // finish writes the evidence of a test at its end.
-func finish(t *testing.T, ev *evid.Collector) {
-	t.Cleanup(func() { ev.Write() })
-}
+func finish(t *testing.T, ev *evid.Collector) { Finish(t, ev) }
